@@ -233,5 +233,5 @@ CHECKS = {
     "C16": {"engines": [("E3", {"suite": "C16", "profiles": ("pdbg", "prel"), "all_tags": True}), ("E3", {"suite": "C16R", "profiles": ("pdbg", "prel"), "all_tags": True}), "E1"], "level": "exploration"},
     "C17": {"engines": [("E3", {"profiles": ("pdbg", "prel"), "diff": True}), "E1diff"], "level": "exploration"},
     "C18": {"engines": ["E1", ("E1", {"profile": "hdbg"})], "level": "fault_enumeration"},
-    "C19": {"engines": ["E3"]},
+    "C19": {"engines": ["E3", "E1"]},
 }
